@@ -5,6 +5,19 @@ Require Import FastZ.
 From Dashu Require Import Base.Prelude Base.Words Int.BitsSpec Int.IoSpec Int.GrlSpec Float.RoundSpec Float.Contract.
 From Dashu Require Import Ratio.SimplestSpec.
 From Dashu Require Import Serde.WireModel Serde.CfgValueSpec Serde.FloatToIeeeAsis.
+(** round 3 (model files only, so that the oracle builds even when a proof breaks): the word-level runs (Serde/WordRunsModel.v;
+    proved = specification for every word size in Serde/WordRuns.v), the single
+    multiplication kernels of C01 at the word size of the build, the human-readable serde forms (Serde/JsonModel.v),
+    the byte conversions of C07 at the word size of the build, C06's specification and as-is models of the
+    conversions to f32 / f64 *)
+From Dashu Require Import Int.RingMul Int.DivWordInst Int.RingMulW Int.IoModel.
+From Dashu Require Import Conv.ConvSpec Conv.ConvModel.
+From Dashu Require Import Float.Model Float.ElemEncl Float.ElemEntry.
+(* CoqInterval's enclosure code is pure Z code, but extraction drags the real-number axiom sig_forall_dec in as a
+   top-level value that would raise at module initialisation; it is never called (as in Extract_c11.v) *)
+Extract Constant ClassicalDedekindReals.sig_forall_dec => "(fun _ -> assert false)".
+From Dashu Require Import Serde.WordRunsModel Serde.JsonModel Serde.ArchModel Serde.ArchSelect.
+Require Import ExtrOcamlNativeString.
 Extraction "model.ml"
   to_words value
   sle_value sle_bytes ubig_enc ubig_dec ibig_enc ibig_dec
@@ -20,4 +33,13 @@ Extraction "model.ml"
   f32_decode f64_decode log2_bound_check log2_bound_exact log2_bound_k
   check_contract cmp_kx
   next_up_check next_down_check
-  wide_class.
+  wide_class
+  wr_mul wr_sqr wr_add wr_sub wr_pow wr_divrem wr_and wr_or wr_xor wr_shl wr_shr wr_bitlen wr_tz wr_ones
+  wr_tostr wr_fromstr wr_sqrt wr_tof64 wr_tof32 ws_modmul ws_modpow
+  x2by1 wr_T_simple wr_T_kara wr_CHUNK add_signed_mul_w simple_add_signed_mul_w karatsuba_add_signed_mul_w toom3_add_signed_mul_w
+  to_le_bytes_asis to_signed_le_bytes_asis from_le_bytes_asis from_signed_le_bytes_asis
+  json_int_text json_int_text_asis json_int_de json_int_de_asis json_rat_text json_rat_de
+  json_float_text json_float_de json_inf_collision
+  F32 F64 P32 P64 ieee_rne ieee_round flag_of_error rat_to_float fbig_to_float
+  arch_word_bits
+  check_exp check_ln check_powi loose_exp loose_ln loose_powi exp_entry ln_entry powi_entry normalize dlen.
